@@ -28,3 +28,53 @@ Proof.
     cbn [same_answer] in L; try contradiction; try reflexivity.
   subst i'. reflexivity.
 Qed.
+
+(* ---------- the second step: one blank inserted ---------- *)
+From Wrap Require Import Parse.Insert.
+
+Definition strict_ins (x y : ascii) (g : grammar) (text : string) : outcome :=
+  interp_with (rt2 x y) g (text_fuel text) (GRef "Module") (text_state text).
+
+Theorem parse_module_insert : forall g text text' U x y V,
+  solid x = true -> solid y = true ->
+  expandtabs (chars_of text) = U ++ x :: y :: V ->
+  expandtabs (chars_of text') = U ++ x :: " "%char :: y :: V ->
+  no_slash (U ++ x :: y :: V) = true ->
+  strict_ins x y g text <> NoFuel ->
+  parse_module g text' <> Unsupported "fuel" ->
+  parse_module g text = parse_module g text'.
+Proof.
+  intros g text text' U x y V Hx Hy E E' Hn Hq Hf.
+  rewrite no_slash_app in Hn. apply andb_true_iff in Hn. destruct Hn as [HU HV].
+  unfold strict_ins, text_state in Hq. rewrite E in Hq.
+  unfold parse_module, parse_text in *. fold (text_fuel text) in *. fold (text_fuel text') in *. rewrite E, E' in *.
+  assert (Hf' : interp g (text_fuel text') (GRef "Module") {| pk := false; rest := U ++ x :: " "%char :: y :: V |} <> NoFuel).
+  { intros X. rewrite X in Hf. apply Hf. reflexivity. }
+  pose proof (insert_blank x y V Hx Hy HV g (GRef "Module") U (text_fuel text) (text_fuel text') HU Hq Hf') as L.
+  destruct (interp g (text_fuel text) (GRef "Module") {| pk := false; rest := U ++ x :: y :: V |}) as [| |i a];
+    destruct (interp g (text_fuel text') (GRef "Module") {| pk := false; rest := U ++ x :: " "%char :: y :: V |}) as [| |i' a'];
+    cbn [same_answer] in L; try contradiction; try reflexivity.
+  subst i'. reflexivity.
+Qed.
+
+(* ---------- re-layouts: finite compositions of the two steps, in either direction ---------- *)
+Inductive relayout (g : grammar) : string -> string -> Prop :=
+| rl_refl : forall t, relayout g t t
+| rl_fill : forall t t' k, skeleton t = Some k -> skeleton t' = Some k ->
+            strict_parse g t <> NoFuel -> parse_module g t' <> Unsupported "fuel" -> relayout g t t'
+| rl_blank : forall t t' U x y V, solid x = true -> solid y = true ->
+             expandtabs (chars_of t) = U ++ x :: y :: V -> expandtabs (chars_of t') = U ++ x :: " "%char :: y :: V ->
+             no_slash (U ++ x :: y :: V) = true -> strict_ins x y g t <> NoFuel ->
+             parse_module g t' <> Unsupported "fuel" -> relayout g t t'
+| rl_sym : forall t t', relayout g t t' -> relayout g t' t
+| rl_trans : forall t1 t2 t3, relayout g t1 t2 -> relayout g t2 t3 -> relayout g t1 t3.
+
+Theorem relayout_same_parse : forall g t t', relayout g t t' -> parse_module g t = parse_module g t'.
+Proof.
+  intros g t t' H. induction H.
+  - reflexivity.
+  - eapply parse_module_layout; eassumption.
+  - apply (parse_module_insert g t t' U x y V); assumption.
+  - symmetry. assumption.
+  - congruence.
+Qed.
